@@ -64,3 +64,20 @@ TABLE['C04'] = {
     'level_text': 'Deductive proof, for all representable names, that make Writer.escape_str/Writer.write (target, dependency, function syntaxes) and ninja Writer.escape_str/Writer.write (output, input) are read back by the tool as exactly the name, and that target-side and dependency-side spellings agree; the comma-in-$(call) defect is a known finding, the %-in-prerequisite defect was repaired (fix commit).',
     'level_note': 'Trusted: PyVC, z3, specs/make.py (validated against make 4.3), specs/ninja.py (not tool-validated), F2 regex transducer model (cross-checked). Not covered: tool behaviour after name resolution, Path realisation, depfiles.',
 }
+
+TABLE['C11'] = {
+    'modules': ['contracts.glob'],
+    'level': 'proof',
+    'assumptions': [
+        'path components and per-component matchers are abstract (uninterpreted sorts; M(matcher, component)); that the matcher '
+        'built by re.compile(fnmatch.translate(c)).match / _match_string decides the documented *, ?, [..] semantics of one '
+        'component is a library assumption (fnmatch), cross-checked by the bounded reference run',
+        'termination of PathGlob._match_glob_runs (recursion on the number of runs) is not verified',
+        'Python int = mathematical integer; list_view is interpreted from the real iterutils.list_view source',
+    ],
+    'trusted_base': ['PyVC (pyvc/*.py)', 'z3 5.1.0', 'the recursive definitions MATCHN/SEM/EXC in contracts/glob.py (the formal reading of "** matches zero or more components")'],
+    'not_covered': ['PathGlob.__init__/_compile_glob (deductively; covered by the bounded reference run)', 'NameGlob, FileFilter._match_globs, FindResult algebra (in progress)',
+                    'find._find_files pruning walk, uniquetrees, caching, "every returned entry exists", dist membership'],
+    'level_text': 'Deductive proof, for all patterns (any number of ** runs) and all paths, that PathGlob._match_base, _match_glob_run, _match_glob_runs and match return yes exactly on the documented glob semantics (soundness and completeness of the first-fit strategy, by induction lemmas) and never only where no descendant can match; _is_glob classifies exactly the fnmatch metacharacters. Compile step and file-system walk are cross-checked bounded only.',
+    'level_note': 'Trusted: PyVC, z3, the recursive semantic definitions. Assumed: fnmatch per-component behaviour, termination. Bounded only: constructor/_compile_glob, find_files walk.',
+}
